@@ -327,11 +327,15 @@ claim("C36",
       "mark (one store write, idle_since=None) when the run is still in memory, reloads it otherwise, and forwards the "
       "event exactly once afterwards. (4) Reload: _ensure_active_run_locked leaves an active run alone (nothing started, "
       "nothing written) and starts a released run exactly once under its own run id, marks it active, clears its idle "
-      "mark and changes no other run's membership; when the handler row or the workflow is missing nothing is started.",
+      "mark and changes no other run's membership; when the handler row or the workflow is missing nothing is started. "
+      "One fact about the DBOS stack is decided from its source text alone (the package cannot be imported here, so "
+      "there is no native side): DBOSIdleReleaseDecorator._deferred_release takes itself out of the timer table "
+      "BEFORE it starts the release handshake - the call-site precondition of _release_idle_handler - so that the "
+      "tick the handshake sends cannot cancel the task that is running it.",
       "NOT covered: that the reloaded run continues from where it stopped (what context_from_ticks replays: C11 / "
       "C13 cover the replay functions, not this call chain), the interplay of the deferred release task with these "
-      "sections beyond the reload lock, and the whole DBOS stack (packages/llama-agents-dbos: not importable here; a "
-      "seeded change there, C36-m2, is not detected). The store query and the clock are modelled as read once inside "
+      "sections beyond the reload lock, and the rest of the DBOS stack (packages/llama-agents-dbos: lifecycle lock, "
+      "journal, crash recovery - not importable here). The store query and the clock are modelled as read once inside "
       "each section. This check must not be read as a proof of C36.",
       category="other",
       technique="contract-based: postconditions on a mechanically extracted section and over a ghost call log of the "
